@@ -113,7 +113,7 @@ PROPS = {
                                           "non-interference of concurrent calls follows from the per-call events: each call of a generator-based manager performs its own Call(genfunc) and drives only that generator object (event-match on object identity), and the decorator object is not written (only objects allocated by the call are)"],
                 bounded_note=[{"what": "overlapping and recursive calls on the real code (replay/schedules.py decorator)", "bound": "1..3 overlapping calls of a decorated coroutine function, generator-based and class-based managers, suspension points in enter/body/exit, raising bodies, suppressing managers, direct recursion, one cancellation; label bounded"}],
                 explanation="a decorated call against the specification, for generator-based managers (fresh generator per call: the generator function is called once per call and only that generator is resumed/thrown into) and class-based ContextDecorator managers: enter before the body, exit after it with the body's exception (incl. BaseException/cancellation at every suspension), result/exception passed through unless suppressed"),
-    "C16": dict(level="proof", extra=[extras.refs_validation], canaries=[(CANARY, "canary:filter-yields-before-test")], trusted_base=TB_COMMON + ["reference class groupby/_grouper = transcription of CPython's groupbyobject/_grouperobject (validated differentially)", "one stale group handle represents all stale handles (their behaviour depends only on not being the current group)"],
+    "C16": dict(level="proof", extra=[extras.refs_validation, extras.groupby_native], canaries=[(CANARY, "canary:filter-yields-before-test")], trusted_base=TB_COMMON + ["reference class groupby/_grouper = transcription of CPython's groupbyobject/_grouperobject (validated differentially)", "one stale group handle represents all stale handles (their behaviour depends only on not being the current group)"],
                 explanation="data structure against abstract view: GroupBy/_Grouper operations vs the transcribed itertools.groupby under an arbitrary history of {advance groupby, advance current group, advance stale group}; the consumer loop is a cut point, so histories and inputs are unbounded"),
     "C19": dict(level="proof", canaries=[(CANARY, "canary:filter-yields-before-test")],
                 trusted_base=TB_COMMON + ["specification contracts/refs/ref_asynctools.py (written from the property text: which values are awaited, in which order, when)",
